@@ -45,7 +45,7 @@ int drv_cfg(void) {
       }
     } else if (!strcmp(t[0], "cfgstmts")) {
       /* model-side */
-    } else if (!strcmp(t[0], "cfglua") || !strcmp(t[0], "cfgnone")) {
+    } else if (!strcmp(t[0], "cfglua") || !strcmp(t[0], "cfgnone") || !strcmp(t[0], "cfgstatic")) {
       struct config *c;
       if (t[0][3] == 'l') {
         char *text = unhex(t[1]);
